@@ -155,13 +155,13 @@ func (info RecipientInfo) WriteTo(utf8 bool, w io.Writer) error {
 		// But we cannot directly insert CR/LF into Disagnostic-Code so rewrite it.
 		h.Add("Diagnostic-Code", fmt.Sprintf("smtp; %d %d.%d.%d %s",
 			smtpErr.Code, smtpErr.EnhancedCode[0], smtpErr.EnhancedCode[1], smtpErr.EnhancedCode[2],
-			diagText(smtpErr.Message)))
+			diagText(smtpErr.Message, utf8)))
 	} else if utf8 {
 		// It might contain Unicode, so don't include it if we are not allowed to.
 		// ... I didn't bother implementing mangling logic to remove Unicode
 		// characters.
 		errorDesc := info.DiagnosticCode.Error()
-		errorDesc = diagText(errorDesc)
+		errorDesc = diagText(errorDesc, utf8)
 
 		h.Add("Diagnostic-Code", "X-Maddy; "+errorDesc)
 	}
@@ -298,12 +298,17 @@ func writeHumanReadablePart(w *textproto.MultipartWriter, mtaInfo ReportingMTAIn
 
 // diagText makes an error text fit for a header field value: CR, LF and all
 // other control characters (a next hop may put anything into its reply) are
-// replaced with spaces, everything else is kept byte for byte.
-func diagText(s string) string {
+// replaced with spaces. A report that is not a SMTPUTF8 message has a
+// message/delivery-status part, which is 7-bit (RFC 3464 Section 2.1): there
+// every octet outside of ASCII is replaced with '?'. Everything else is kept
+// byte for byte.
+func diagText(s string, utf8 bool) string {
 	b := []byte(s)
 	for i, ch := range b {
 		if (ch < 0x20 && ch != '\t') || ch == 0x7f {
 			b[i] = ' '
+		} else if ch >= 0x80 && !utf8 {
+			b[i] = '?'
 		}
 	}
 	return string(b)
